@@ -17,27 +17,37 @@ import (
 
 // Engine holds one loaded package.
 type Engine struct {
-	Prog        *ssa.Program
-	Pkg         *ssa.Package
-	TPkg        *types.Package
-	PPkg        *packages.Package
-	Fset        *token.FileSet
-	Dir         string
-	Contracts   map[string]*Contract
+	Prog         *ssa.Program
+	Pkg          *ssa.Package
+	TPkg         *types.Package
+	PPkg         *packages.Package
+	Fset         *token.FileSet
+	Dir          string
+	Contracts    map[string]*Contract
 	ContractList []*Contract
-	Decls       []*Decl
-	layouts     map[types.Type][]Sort
-	typeIDs     map[string]int64
-	typeNames   map[int64]string
-	globals     map[*ssa.Global]int64
-	funcs       map[*ssa.Function]int64
-	firstDynRef int64
-	roGlobals   map[*ssa.Global]bool
-	funcsByKey  map[string]*ssa.Function
-	ghostStable map[string]bool
-	LoadMs      int64
-	Monitors    []*Monitor
-	DumpObl     string
+	Decls        []*Decl
+	layouts      map[types.Type][]Sort
+	typeIDs      map[string]int64
+	typeNames    map[int64]string
+	globals      map[*ssa.Global]int64
+	funcs        map[*ssa.Function]int64
+	firstDynRef  int64
+	roGlobals    map[*ssa.Global]bool
+	funcsByKey   map[string]*ssa.Function
+	ghostStable  map[string]bool
+	LoadMs       int64
+	Monitors     []*Monitor
+	DumpObl      string
+	ExtraEval    []string
+	Known        *KnownFindingsFile
+	CurProp      string
+	FieldDecls   []*FieldDecl
+	callees      map[*ssa.Function]map[*ssa.Function]bool
+	reachCache   map[*ssa.Function]map[string]bool
+	cellable     map[*ssa.Alloc]bool
+	emitters     map[string]map[string]bool
+	relatedCache map[[2]*types.Named]bool
+	scalarTags  map[int64]Sort
 }
 
 // Load type-checks the package in dir (with -tags verif) and builds naive-form SSA for it.
@@ -63,7 +73,7 @@ func Load(repo, rel string) (*Engine, error) {
 	e := &Engine{Prog: prog, Pkg: spkgs[0], TPkg: pkgs[0].Types, PPkg: pkgs[0], Fset: pkgs[0].Fset, Dir: dir,
 		Contracts: map[string]*Contract{}, layouts: map[types.Type][]Sort{}, typeIDs: map[string]int64{}, typeNames: map[int64]string{},
 		globals: map[*ssa.Global]int64{}, funcs: map[*ssa.Function]int64{}, firstDynRef: 1 << 24,
-		roGlobals: map[*ssa.Global]bool{}, funcsByKey: map[string]*ssa.Function{}, ghostStable: map[string]bool{}}
+		roGlobals: map[*ssa.Global]bool{}, cellable: map[*ssa.Alloc]bool{}, relatedCache: map[[2]*types.Named]bool{}, scalarTags: map[int64]Sort{}, funcsByKey: map[string]*ssa.Function{}, ghostStable: map[string]bool{}}
 	// contracts
 	files, _ := filepath.Glob(filepath.Join(dir, "zz_verif_contracts*.go"))
 	sort.Strings(files)
@@ -88,6 +98,9 @@ func Load(repo, rel string) (*Engine, error) {
 		}
 	}
 	e.findReadonlyGlobals()
+	if err := e.parseFieldDecls(); err != nil {
+		return nil, err
+	}
 	if err := e.parseMonitors(); err != nil {
 		return nil, err
 	}
@@ -172,16 +185,18 @@ func (e *Engine) readonlyGlobal(x *Exec, s *State, g *ssa.Global) (Value, bool) 
 // Units
 
 type UnitResult struct {
-	Unit        string
-	Kind        string // func | lemma | region | monitor
-	Props       []string
-	Obls        []*Obligation
-	Error       string // non-empty: unit could not be generated (unsupported / unbound)
-	Abstracted  map[string]int
-	Trusted     []string
-	GenMs       int64
-	SolveMs     int64
-	Contract    *Contract
+	Unit       string
+	Kind       string // func | lemma | region | monitor
+	Props      []string
+	Obls       []*Obligation
+	Error      string // non-empty: unit could not be generated (unsupported / unbound)
+	Abstracted map[string]int
+	Trusted    []string
+	GenMs      int64
+	SolveMs    int64
+	Contract   *Contract
+	Inputs     []InputSym
+	Pkg        string
 }
 
 func (e *Engine) posOf(fn *ssa.Function) string {
@@ -231,6 +246,15 @@ func (e *Engine) VerifyFunction(fn *ssa.Function, ct *Contract, timeoutMs, par i
 		x.C.Assume(Not(Eq(b.L[0], IntLit(0))))
 		bindings = append(bindings, b)
 	}
+	var ptrParams []Value
+	for _, a := range args {
+		if _, ok := a.T.Underlying().(*types.Pointer); ok {
+			ptrParams = append(ptrParams, a)
+		}
+	}
+	for _, p := range ptrParams {
+		x.noteStructAddr(s, deref(p.T), p.L[0], p.L[1])
+	}
 	x.entry = s.Clone()
 	if ct != nil {
 		for _, rq := range ct.Requires {
@@ -254,10 +278,21 @@ func (e *Engine) VerifyFunction(fn *ssa.Function, ct *Contract, timeoutMs, par i
 			}
 			bindResults(post.names, fn.Signature, results)
 			for k, en := range ct.Ensures {
-				x.C.Oblige(fmt.Sprintf("%s#ensures%d", unit, k), "ensures", fmt.Sprintf("%s:%d", filepath.Base(en.File), en.Line), en.Text, exit.Reach, post.evalBool(en.Expr))
+				name := fmt.Sprintf("%s#ensures%d", unit, k)
+				x.obligeKnown(post, name, "ensures", fmt.Sprintf("%s:%d", filepath.Base(en.File), en.Line), en.Text, exit.Reach, post.evalBool(en.Expr))
 			}
 			if ct.Modifies != nil {
 				x.frameObligations(unit, ct, env, exit)
+			}
+			for _, ex := range append(append([]string(nil), ct.Observes...), e.ExtraEval...) {
+				pe, err := parseSpecExpr(ex)
+				if err != nil {
+					panic(err)
+				}
+				v := post.eval(pe)
+				for k, l := range v.L {
+					x.C.Observe(fmt.Sprintf("%s.%d", ex, k), l)
+				}
 			}
 		}
 		x.monitorExit(fn, exit, env)
@@ -274,6 +309,7 @@ func (e *Engine) VerifyFunction(fn *ssa.Function, ct *Contract, timeoutMs, par i
 	x.C.Solve(timeoutMs, par, cross)
 	res.SolveMs = time.Since(t1).Milliseconds()
 	res.Obls = x.C.Obls
+	res.Inputs = x.C.Inputs
 	res.Abstracted = x.C.Abstracted
 	for k := range x.C.Trusted {
 		res.Trusted = append(res.Trusted, k)
@@ -366,4 +402,58 @@ func (e *Engine) VerifyLemma(ct *Contract, timeoutMs, par int, cross bool) *Unit
 
 func (e *Engine) VerifyRegion(ct *Contract, timeoutMs, par int, cross bool) *UnitResult {
 	return &UnitResult{Unit: ct.Key, Kind: "region", Contract: ct, Error: "regions not implemented"}
+}
+
+// obligeKnown records an obligation, splitting off the input classes that the
+// known-findings file lists for it: the listed class is expected to fail and is
+// reported as KNOWN-FINDING; everything outside it must still be discharged.
+func (x *Exec) obligeKnown(env *specEnv, name, kind, pos, clause string, reach, prop Term) {
+	var classes []Term
+	if x.E.Known != nil {
+		for _, f := range x.E.Known.Findings {
+			if f.Status != "known" || f.Obligation != name || (f.Property != "" && x.E.CurProp != "" && f.Property != x.E.CurProp) {
+				continue
+			}
+			cls := True
+			if f.Class != "" {
+				pe, err := parseSpecExpr(f.Class)
+				if err != nil {
+					unsup("known finding class: %v", err)
+				}
+				cls = env.evalBool(pe)
+			}
+			cls = x.C.Define("kfclass", cls)
+			o := &Obligation{Unit: x.C.Unit, Name: name + "[known]", Kind: kind, Pos: pos, Clause: clause, logLen: len(x.C.log),
+				goal: And(reach, Not(prop), cls), KnownClass: f.Class, KnownWhat: fmt.Sprintf("property=%s %s", f.Property, f.What)}
+			if f.Class == "" {
+				o.KnownClass = "*"
+			}
+			x.C.Obls = append(x.C.Obls, o)
+			classes = append(classes, cls)
+		}
+	}
+	if len(classes) == 0 {
+		x.C.Oblige(name, kind, pos, clause, reach, prop)
+		return
+	}
+	x.C.Oblige(name, kind, pos, clause+"  [outside the recorded known-finding classes]", And(reach, Not(Or(classes...))), prop)
+}
+
+// WriteSetUnits reports the write-set declarations serving a property as units.
+func (e *Engine) WriteSetUnits(prop string) []*UnitResult {
+	var out []*UnitResult
+	for _, fd := range e.FieldDecls {
+		if !hasProp(fd.Props, prop) {
+			continue
+		}
+		name := fmt.Sprintf("writeset(%s.%s)", fd.Struct, fd.Field)
+		o := &Obligation{Unit: name, Name: name, Kind: "writeset", Pos: fmt.Sprintf("%s:%d", filepath.Base(fd.Decl.File), fd.Decl.Line),
+			Clause: "every store into the field (or escape of its address) occurs in a listed writer: " + fd.Decl.Text, Solver: "ssa-scan", Status: "unsat"}
+		if len(fd.Violated) > 0 {
+			o.Status = "unknown"
+			o.Output = strings.Join(fd.Violated, "; ")
+		}
+		out = append(out, &UnitResult{Unit: name, Kind: "writeset", Props: fd.Props, Obls: []*Obligation{o}})
+	}
+	return out
 }
